@@ -1,2 +1,19 @@
-#!/bin/sh
-exit 0
+#!/bin/bash
+# Builds the framework tools from files on disk only (offline) and warms the Go build cache.
+set -e
+export GOFLAGS=-mod=mod GOPROXY=off GOSUMDB=off GOTOOLCHAIN=local
+VERIF=$(cd "$(dirname "$0")" && pwd)
+REPO=${VERIF_REPO:-/repo}
+mkdir -p "$VERIF/bin"
+( cd "$VERIF/cmd/instrument" && go build -o "$VERIF/bin/instrument" . )
+( cd "$VERIF/cmd/driver" && go build -o "$VERIF/bin/driver" . )
+[ "${1:-}" = "--tools-only" ] && exit 0
+SCR=$(mktemp -d "${VERIF_SCRATCH:-/dev/shm}/verif-setup-XXXXXX")
+trap 'rm -rf "$SCR"' EXIT
+"$VERIF/bin/instrument" "$REPO" "$SCR/repo"
+# acceptance test of the rewrite: the instrumented tree passes the repository's own test suite
+( cd "$SCR/repo" && go test -vet=off -count=1 ./... ) > "$SCR/test.log" 2>&1 || { echo "instrumented tree fails the repository's tests"; tail -40 "$SCR/test.log"; exit 1; }
+echo "instrumented tree passes the repository's test suite"
+mkdir -p "$SCR/sim" && cp -r "$VERIF"/sim/. "$SCR/sim/" && cat "$REPO/go.sum" "$VERIF/sim/go.sum.extra" > "$SCR/sim/go.sum"
+( cd "$SCR/sim" && go1.26.8 test -c -o "$SCR/sim.test" . && go1.26.8 test -race -c -o "$SCR/sim.race.test" . )
+echo "simulator builds (plain and -race); build cache is warm"
